@@ -602,6 +602,45 @@ def run_request(acc, job):
                              'shape': shape}, 'untouched', repr(target),
                             'request')
                     acc.outcome('request-deep-opaque-%s' % got[0])
+    # ONE credentials mapping (and one target) serves consecutive calls and is
+    # changed in place between them: every request carries what the mapping
+    # holds when the call is made
+    with world.HttpStub(responder) as stub:
+        for ct in ('application/x-www-form-urlencoded', 'application/json'):
+            enf = enforcer(ct)
+            world.set_rules(enf, {'p': 'http://srv.test/v1/%(name)s',
+                                  'q': 'https://srv.test/v1/%(name)s'})
+            creds = {'roles': ['member', 'admin'], 'user_id': 'u'}
+            target = {'name': 'n1', 'size': 1}
+            steps = [lambda: None,
+                     lambda: creds['roles'].remove('admin'),
+                     lambda: creds.update(project_id='p9'),
+                     lambda: creds.__setitem__('roles', []),
+                     lambda: target.update(size=2),
+                     lambda: target.pop('size')]
+            for i, change in enumerate(steps):
+                change()
+                for pname in ('p', 'q'):
+                    del stub.calls[:]
+                    acc.case('request', True)
+                    acc.ev()
+                    got = world.decide(enf, pname, target, creds)
+                    try:
+                        r, t, c = decode_payload(stub.calls[0][0], ct)
+                    except Exception as e:
+                        r, t, c = None, None, repr(e)
+                    if got != ('ok', True) or c != creds or t != target:
+                        acc.violation(
+                            'request|same-mapping-changed|%s' % (
+                                'credentials' if c != creds else 'target'
+                                if t != target else 'decision'),
+                            'call %d with the same credentials / target '
+                            'mappings, now %r / %r: the request carried %r / '
+                            '%r (decision %r)' % (i + 1, creds, target, c, t,
+                                                  got),
+                            {'step': i, 'policy': pname, 'content_type': ct},
+                            [creds, target], [c, t], 'request')
+                    acc.outcome('request-same-mapping')
     # the configured encoding is read at every call: (a) one enforcer whose
     # remote_content_type option is changed between calls, (b) ONE parsed
     # check object handed to two differently configured enforcers in turn
